@@ -13,3 +13,31 @@ UNITS = {
     'HC_encode': hc('encode', 3, ['HC_interleave']),
     'HC_decode': hc('decode', 2, ['HC_deinterleave', 'HC_prefixScan']),
 }
+
+# ---- geos::algorithm::Centroid (src/algorithm/Centroid.cpp): the accumulation code and getCentroid's selection.
+# `double` is read as an INTEGER on the grid (Lib.GenPreludeZ, re-exported by C20.CentroidPrelude, which also gives the
+# object record, CoordinateSequence = list of points, *areaBasePt, setAreaBasePoint).  Kept abstract (Section variables of
+# the generated files, the theorems of C20/CentroidGen.v quantify over them): Orientation::isCCW (c_isCCW_1),
+# CoordinateXY::distance (m_distance_1) and the floating division (div).
+CEN = 'src/algorithm/Centroid.cpp'
+def cen(name, n, deps=(), **kw):
+    d = dict(src=CEN, qual='geos::algorithm::Centroid::' + name, nparams=n, imports=['C20.CentroidPrelude'], imports_last=True,
+             deps=list(deps), gname='cen_' + name)
+    d.update(kw)
+    return d
+UNITS.update({
+    'CEN_area2': cen('area2', 3),
+    'CEN_centroid3': cen('centroid3', 4, returns_param='c'),
+    'CEN_addTriangle': cen('addTriangle', 4, ['CEN_area2', 'CEN_centroid3'], ref_calls={'centroid3': [3]},
+                           aliases={'c_area2_3': 'cen_area2', 'c_centroid3_4': 'cen_centroid3'}),
+    'CEN_addPoint': cen('addPoint', 1),
+    'CEN_addLineSegments': cen('addLineSegments', 1, ['CEN_addPoint'], aliases={'m_addPoint_1': 'cen_addPoint'},
+                               virtuals={'m_distance_1': 'pt -> pt -> Z', 'div': 'Z -> Z -> Z'}),
+    'CEN_addShell': cen('addShell', 1, ['CEN_addTriangle', 'CEN_addLineSegments'],
+                        aliases={'m_addTriangle_4': 'cen_addTriangle'}, section_aliases={'m_addLineSegments_1': '(cen_addLineSegments m_distance_1 div)'},
+                        virtuals={'c_isCCW_1': 'list pt -> bool', 'm_distance_1': 'pt -> pt -> Z', 'div': 'Z -> Z -> Z'}),
+    'CEN_addHole': cen('addHole', 1, ['CEN_addTriangle', 'CEN_addLineSegments'],
+                       aliases={'m_addTriangle_4': 'cen_addTriangle'}, section_aliases={'m_addLineSegments_1': '(cen_addLineSegments m_distance_1 div)'},
+                       virtuals={'c_isCCW_1': 'list pt -> bool', 'm_distance_1': 'pt -> pt -> Z', 'div': 'Z -> Z -> Z'}),
+    'CEN_getCentroid': cen('getCentroid', 1, out_params=['cent'], virtuals={'div': 'Z -> Z -> Z'}),
+})
